@@ -286,7 +286,7 @@ def spell_circuit(ctx, circuit, rng, pcts):
 def apply_percent_limits(ctx, circuit, rng):
     """give some parameters limits that are exact percentages of the value; returns {(id(el), key): (pct_lo, pct_hi)}"""
     pcts = {}
-    for el in circuit.get_elements(recursive=True):
+    for el in circuit.generate_element_identifiers(running=True).keys():       # incl. elements inside containers
         row = ctx.rows[ctx.idx[type(el)]]
         for k in row["keys"]:
             v = el.get_value(k)
